@@ -18,6 +18,7 @@
 // with 7 bits of headroom for the sums of the difference formulas) is flagged exact=false and the specification
 // skips the value comparisons for it (counted in the summary).
 #include "tracer.h"
+#include "param_audit.h"
 
 #include <Bpp/Exceptions.h>
 #include <Bpp/Numeric/AbstractParametrizable.h>
@@ -812,6 +813,7 @@ static void staleProbe(long& sc)
 
 int main(int argc, char** argv)
 {
+  vt::installParamAudit(); // C01: audit of every Parameter of the process when VERIF_PARAM_AUDIT=<file> is set
   std::string out = argStr(argc, argv, "--out", "");
   std::string mode = argStr(argc, argv, "--mode", "random");
   long n = argInt(argc, argv, "--n", 100);
